@@ -220,6 +220,17 @@ func (r *runner) action(a string) bool {
 			}
 		}
 		r.tracef("    (dropped %d keys; of the current trees' handles %d dropped, %d still cached)", len(victims), dropped, kept)
+	case "l1evict":
+		// process n loses the nodes of its process-local MRU (capacity pressure), not its handle cache: the listed
+		// finding needs both (outdated handle -> outdated node still in the MRU), so the process counts as clean again
+		resp, ok := r.call(n, Cmd{Kind: "l1evict"})
+		if !ok {
+			return false
+		} else if resp.Err != "" {
+			return r.sopError(n, "L1 eviction", resp)
+		}
+		r.wrote[n] = map[string]string{}
+		r.label("l1-nodes-evicted")
 	case "adv":
 		r.srv.Advance(time.Duration(n) * time.Second)
 	case "restart":
@@ -417,18 +428,11 @@ func respDel(addr string, keys []string) error {
 
 // txn runs one writing transaction and judges every operation's result against the model.
 func (r *runner) txn(p int, ops []Op, inTxn, end, what string) bool {
-	// The listed finding (a process-local handle cache serves a node another process has replaced) makes the
-	// operations of a transaction in such a process see old data BEFORE the commit; a writer's commit then validates
-	// against the registry and is refused, or merges onto the current nodes. So a writer is let run in a tainted
-	// process: an operation result that shows the listed class ends the case's judgement of that transaction (counted as
-	// excluded, process restarted), a refused commit is accepted, and a commit that returns nil has to leave exactly
-	// the model's state on disk - a lost update of the other process's commit is not part of the listed class.
-	taintedW := false
-	if r.listed {
-		if t, _ := r.tainted(p); t {
-			taintedW = true
-			r.label("txn:writer-in-process-with-outdated-handles")
-		}
+	// (the listed finding also reaches writers: operations of a writer in such a process navigate a mixture of its own
+	// outdated nodes and current ones - observed: index-out-of-range panics, a commit that returns nil and leaves a
+	// tree with misplaced/duplicate keys or an item whose value blob is gone - so writers are restarted like readers)
+	if !r.beforeTxn(p) {
+		return false
 	}
 	resp, ok := r.call(p, Cmd{Kind: "txn", Mode: "W", Names: r.names, Ops: ops})
 	if !ok {
@@ -466,21 +470,11 @@ func (r *runner) txn(p int, ops []Op, inTxn, end, what string) bool {
 		case "find":
 			want, wantVal = has, m[op.K]
 		}
-		if (o.OK != want || (op.Kind == "find" && o.OK && o.Val != wantVal)) && taintedW {
-			r.out.excluded++
-			r.tracef("  excluded (%s): P%d %s op %d %s returned %v, restarted", knownSlug, p, what, i, op, o.OK)
-			return r.restart(p)
-		}
 		if o.OK != want || (op.Kind == "find" && o.OK && o.Val != wantVal) {
 			return r.violate(r.classFor(p, "stale-result-in-writer"),
 				"P%d %s: op %d %s returned %v %s; given the latest committed state %s (plus this transaction's earlier operations) it must return %v %s",
 				p, what, i, op, o.OK, short(o.Val), render(r.modelItems(op.S)), want, short(wantVal))
 		}
-	}
-	if resp.Err != "" && taintedW && !infraPat.MatchString(resp.Err) {
-		r.out.excluded++
-		r.tracef("  excluded (%s): P%d %s failed at %s: %s, restarted", knownSlug, p, what, resp.Stage, resp.Err)
-		return r.restart(p)
 	}
 	if resp.Err != "" {
 		return r.sopError(p, what, resp)
